@@ -10,7 +10,7 @@ that the harness makes (`none`: it makes none — the op is skipped, or it is no
 namespace Percival.Proofs.AfStep
 open Percival.Model Percival.Model.EvReg Percival.Model.HeapAlloc Percival.Model.AfStep
 open Percival.Model.DsStep (rf)
-open Percival.Spec.AfMon (Op keyFn MAXID MAXFD)
+open Percival.Spec.AfMon (Op keyFn MAXID MAXFD createSkip)
 
 /-- the event-layer call behind an op: its status, the callbacks it ran (`run` only), the new event state, the
 new allocator state -/
@@ -33,7 +33,7 @@ def evCall (s : S) : Op → Option (NetRes × Option (List Nat) × Ev × Mem)
   | _ => none
 
 /-- the heap call behind an op: success, the `id=` field, the new heap, the allocator before and after the call
-(`h_init` on an existing heap frees it first) -/
+(`h_init` / `h_create` on an existing heap free it first) -/
 def heapCall (s : S) : Op → Option (Bool × Option (Option Nat) × Option HeapA × Mem × Mem)
   | .hInit =>
     let r := HeapAlloc.init (initMem s); some (r.1.isSome, none, r.1, initMem s, r.2)
@@ -52,6 +52,10 @@ def heapCall (s : S) : Op → Option (Bool × Option (Option Nat) × Option Heap
       | some e, some r => some (true, some (some e), some r.1, s.m, r.2)
       | _, _ => none
   | .hFree => s.h.map fun ha => (true, none, none, s.m, HeapAlloc.free ha s.m)
+  | .hCreate els =>
+    if createSkip els then none else
+    let r := HeapAlloc.create (keyFn (els ++ s.keys)) (els.map (·.1)) (initMem s)
+    some (r.1.isSome, none, r.1, initMem s, r.2)
   | _ => none
 
 theorem free_refusals (ha : HeapA) (m : Mem) : (HeapAlloc.free ha m).refusals = m.refusals := by
@@ -126,6 +130,14 @@ theorem stepOp_heapCall (s : S) (op : Op) (ok : Bool) (id : Option (Option Nat))
     cases hh : s.h with
     | none => rw [hh] at h; cases h
     | some ha => rw [hh] at h; cases h; simp [stepOp, hh, rf, free_refusals]
+  case hCreate els =>
+    split at h
+    · cases h
+    · rename_i hc; cases h
+      simp only [stepOp, hc]
+      generalize initMem s = m0
+      cases hi : HeapAlloc.create (keyFn (els ++ s.keys)) (els.map (·.1)) m0 with
+      | mk o m2 => cases o <;> simp
 
 /-- an op with no heap call and no event call is a schedule / clock line, `end`, or skipped: apart from `end` the
 two models' states are untouched -/
@@ -164,6 +176,10 @@ theorem stepOp_nocall (s : S) (op : Op) (h1 : evCall s op = none) (h2 : heapCall
     cases hh : s.h with
     | none => simp [stepOp, hh]
     | some ha => rw [hh] at h2; cases h2
+  case hCreate els =>
+    split at h2
+    · rename_i hc; simp only [stepOp, hc, if_true]; simp
+    · cases h2
   case regImm i prio =>
     split at h1
     · rename_i hc; simp only [stepOp, hc, if_true]; simp
